@@ -110,6 +110,37 @@ pub fn parity(data: &[u8], k: usize) -> Vec<u8> {
     rem
 }
 
+/// k data codewords (to be placed at the END of a block's data) whose parity is exactly `target` (k values):
+/// find m with (m*g) mod x^k = target, then data = (m*g - target) / x^k. Triangular because g(0) != 0.
+pub fn data_for_parity(k: usize, target: &[u8]) -> Vec<u8> {
+    let g = generator(k); // highest first: g[0] = 1 (x^k) ... g[k] = constant term
+    let gc = |i: usize| -> u8 { if i <= k { g[k - i] } else { 0 } }; // coefficient of x^i
+    let tc = |i: usize| -> u8 { target[k - 1 - i] }; // target given highest degree first (x^{k-1} .. x^0)
+    let g0inv = inv(gc(0));
+    let mut m = vec![0u8; k]; // m[j] = coefficient of x^j
+    for i in 0..k {
+        let mut acc = tc(i);
+        for j in 0..i {
+            acc ^= mul(m[j], gc(i - j));
+        }
+        m[i] = mul(acc, g0inv);
+    }
+    // product coefficients of degree k..2k-1
+    let mut d = vec![0u8; k]; // d[t] = coefficient of x^(k+t)
+    for (t, dt) in d.iter_mut().enumerate() {
+        let deg = k + t;
+        let mut acc = 0u8;
+        for (j, mj) in m.iter().enumerate() {
+            if deg >= j {
+                acc ^= mul(*mj, gc(deg - j));
+            }
+        }
+        *dt = acc;
+    }
+    d.reverse(); // highest degree first
+    d
+}
+
 /// cached variant for bulk use. The per-constant product tables are filled at run time with the
 /// shift-and-xor `mul` above (nothing tabulated in the source).
 pub struct Rs {
@@ -220,6 +251,14 @@ pub fn selftest() -> Result<(), String> {
     // generator polynomial for 5 check symbols as printed in the standard (Annex E)
     if generator(5) != [1, 62, 111, 15, 48, 228] {
         return Err(format!("R-RS: g5 {:?}", generator(5)));
+    }
+    for k in [5usize, 12, 68] {
+        let mut target = vec![0u8; k];
+        target[0] = 41;
+        let d = data_for_parity(k, &target);
+        if parity(&d, k) != target {
+            return Err(format!("R-RS: data_for_parity k={}", k));
+        }
     }
     for k in [5usize, 7, 10, 11, 12, 14, 15, 18, 20, 22, 24, 27, 28, 32, 34, 36, 38, 41, 42, 46, 48, 50, 56, 62, 68] {
         let data: Vec<u8> = (0..40).map(|i| (i * 37 + k) as u8).collect();
